@@ -144,6 +144,9 @@ FIXED = {
         ('traits-vs-inventory', [('traits_set', 39, 1, 3, [1]), ('inv_set', 39, 1, 3, [inv(0, 4)])], [(0, 'rp', 1, 3), (1, 'rp', 1, 3)]),
         ('empty-inventory-vs-traits', [('inv_set', 39, 3, 0, []), ('traits_set', 39, 3, 0, [1])], [(0, 'rp', 3, 0), (1, 'rp', 3, 0)]),
         ('delete-all-vs-aggregates', [('inv_delete_all', 39, 3), ('aggs_set', 39, 3, 0, [2])], [(1, 'rp', 3, 0)]),
+        ('reshape-emptying-vs-inventory', [('reshape', 39, [(2, 2, [])], [cons(2, 1, [])]),
+                                           ('inv_set', 39, 2, 2, [inv(0, 16)])],
+         [(0, 'rp', 2, 2), (1, 'rp', 2, 2)]),
         ('three-guarded', [('inv_set', 39, 1, 3, [inv(0, 4)]), ('aggs_set', 39, 1, 3, [2]), ('inv_put', 39, 1, 3, inv(0, 16))],
          [(0, 'rp', 1, 3), (1, 'rp', 1, 3), (2, 'rp', 1, 3)]),
     ],
@@ -154,6 +157,12 @@ FIXED = {
          [(0, 'cons', 5, None), (1, 'cons', 5, None)]),
         ('null-put-vs-gen0-put', [('alloc_put', 39, cons(5, None, [(1, [(0, 2)])])), ('alloc_put', 39, cons(5, 0, [(2, [(0, 3)])]))],
          [(0, 'cons', 5, None), (1, 'cons', 5, 0)]),
+        ('stale-write-changing-attributes', [('alloc_put', 39, dict(cons(2, 1, [(1, [(0, 2)])]), proj=2)),
+                                             ('alloc_put', 39, cons(2, 1, [(2, [(0, 3)])]))],
+         [(0, 'cons', 2, 1), (1, 'cons', 2, 1)]),
+        ('stale-post-changing-type', [('alloc_post', 38, [dict(cons(2, 1, [(1, [(0, 2)])]), type=2)]),
+                                      ('alloc_put', 38, cons(2, 1, [(2, [(0, 3)])]))],
+         [(0, 'cons', 2, 1), (1, 'cons', 2, 1)]),
         ('racing-create-different-types', [('alloc_put', 38, dict(cons(5, None, [(1, [(0, 1)])]), type=1)),
                                            ('alloc_put', 38, dict(cons(5, None, [(1, [(0, 1)])]), type=2, proj=2))],
          [(0, 'cons', 5, None), (1, 'cons', 5, None)]),
@@ -162,6 +171,9 @@ FIXED = {
          [(0, 'cons', 5, None), (1, 'cons', 5, None)]),
     ],
     'C07': [
+        ('stale-write-changing-attributes', [('alloc_put', 39, dict(cons(2, 1, [(1, [(0, 2)])]), proj=2)),
+                                             ('alloc_put', 39, cons(2, 1, [(2, [(0, 3)])]))],
+         [(0, 'cons', 2, 1), (1, 'cons', 2, 1)]),
         ('capacity-race', [('alloc_put', 39, cons(4, None, [(1, [(0, 5)])])), ('alloc_put', 39, cons(5, None, [(1, [(0, 5)]), (2, [(0, 1)])]))], []),
         ('null-put-vs-gen0-put', [('alloc_put', 39, cons(5, None, [(1, [(0, 2)])])), ('alloc_put', 39, cons(5, 0, [(2, [(0, 3)])]))],
          [(0, 'cons', 5, None), (1, 'cons', 5, 0)]),
